@@ -14,7 +14,7 @@ ASSUME = c02.ASSUME[:4] + [
     "ASAP bound recomputed from observed predecessor dates; ALAP deadline = own/inherited end, else earliest successor start minus gap, else observed project end",
 ]
 
-PATTERNS = ["one20", "one90", "one600", "chain", "indep", "fork", "prio", "team", "gapchain", "nestends", "mid10", "mid25", "mid40", "mid50", "gaplen2h", "gaplen1d", "cgap"]
+PATTERNS = ["one20", "one90", "one600", "chain", "indep", "fork", "prio", "team", "gapchain", "nestends", "mid10", "mid25", "mid40", "mid50", "gaplen2h", "gaplen1d", "cgap", "mixgap", "mixgaplen", "mixonstart"]
 
 
 def universe(tier):
@@ -26,6 +26,8 @@ def universe(tier):
                 for L in Ls:
                     for pat in PATTERNS:
                         for mode in ("asap", "palap", "talap", "talap-mid"):
+                            if pat == "mixonstart" and mode != "asap":
+                                continue   # on-start edges in backward mode are not claimed (C04's quantifier)
                             for eff in ((1.0,) if tier == "quick" and pat not in ("one90", "chain") else (1.0, 0.7)):
                                 yield {"hk": hk, "days": days, "z": z, "L": L, "pat": pat, "mode": mode, "eff": eff}
     # gaplength at resolutions whose slot is not a binary fraction of an hour (sums of 1/6, 1/3, 1/12, 1/10, 1/60 h)
@@ -37,6 +39,8 @@ def universe(tier):
     for lv in c02.LEAVES:
         for pat in PATTERNS:
             for mode in ("asap", "palap", "talap", "talap-mid"):
+                if pat == "mixonstart" and mode != "asap":
+                    continue
                 yield {"hk": None, "days": None, "z": None, "L": 60, "pat": pat, "mode": mode, "eff": 1.0, "lv": lv}
 
 
@@ -78,6 +82,11 @@ def to_spec(it):
         # the dependency bound lies m minutes past the hour (a predecessor of m minutes on the other resource): inside a slot, and for
         # sub-hour resolutions not in the first slot of its clock hour; a lower-priority task on the same resource follows
         tasks = [{"id": "p", "effort": int(pat[3:]), "alloc": ["r2"]}, T("a", 90, deps=["p"]), T("low", 60, prio=300)]
+    elif pat.startswith("mix"):
+        # an entry WITH options written before a plain entry of the same list, the plain one binding (its predecessor ends later)
+        opt = {"mixgap": {"gap": "1h"}, "mixgaplen": {"gaplen": "1h"}, "mixonstart": {"onstart": True}}[pat]
+        tasks = [{"id": "p", "effort": 60, "alloc": ["r2"]}, T("q", 180), {"id": "c", "effort": 90, "alloc": ["r2"], "deps": [{"ref": "p", **opt}, "q"]},
+                 T("low", 60, prio=300)]
     elif pat.startswith("gaplen"):
         # gaplength = working time of the PROJECT calendar after the predecessor's end; the task's own resource may have another calendar
         tasks = [{"id": "p", "effort": 120, "alloc": ["r2"]}, T("a", 90, deps=[{"ref": "p", "gaplen": pat[6:]}]), T("low", 60, prio=300)]
